@@ -247,4 +247,168 @@ theorem dimacs_atom_witness :
     ∧ toDimacs q (cnfBExp [[⟨true, "a"⟩]]) ["a"] = .error "KeyError" :=
   ⟨⟨_, rfl, by decide, by decide, by decide⟩, ⟨_, rfl, by decide, by decide, by decide⟩, rfl⟩
 
+/-! ## the whole of py2bexp and py2qasm -/
+
+theorem nfCall_ok (q : Quirks) (nf : NF) (f : Form) (e r : BExp) (h : nfCall q nf f e = .ok r) :
+    nf f e = .ok r := by
+  unfold nfCall at h
+  split at h
+  · cases h
+  · exact h
+
+theorem dimacsTriggers_none (cs : List Clause) : dimacsTriggers Quirks.none cs = false := by
+  match cs with
+  | [] => rfl
+  | [c] => simp [dimacsTriggers, Quirks.none]
+  | c1 :: c2 :: cs => simp [dimacsTriggers, Quirks.none]
+
+/-- The code as it is (any quirk set): whatever py2bexp prints means the combined expression,
+provided no CNF sympy returned in the run has a shape that triggers a listed DIMACS defect.
+(With `bexp_equiv_partial` the combined expression is the conjunction of the return bits when
+the definition list has no intermediates.) -/
+theorem py2bexp_output_partial (q : Quirks) (nf : NF) (hnf : NFSpec nf) (form : Form)
+    (fmt : Format) (c : BExp) (order : List String) (p : Printed)
+    (h : py2bexpOutput q nf form fmt c order = .ok p)
+    (hord : ∀ r r1, convertToBoolExpression q nf form c = .ok r →
+      dimacsInput q nf form r = .ok r1 → ∀ s ∈ r1.syms, s ∈ order)
+    (htr : ∀ e cs, nf .cnf e = .ok (cnfBExp cs) → dimacsTriggers q cs = false) :
+    match p with
+    | .expr e => ∀ ρ, e.eval ρ = c.eval ρ
+    | .dimacs _ d => d.nvars = order.length ∧ ∀ σ, d.eval σ = c.eval (fun s => σ (num order s)) := by
+  unfold py2bexpOutput at h
+  cases hcv : convertToBoolExpression q nf form c with
+  | error e => simp [hcv] at h
+  | ok r =>
+    have hr := form_dispatch_sound q nf hnf form c r hcv
+    simp only [hcv] at h
+    cases fmt with
+    | sympy =>
+      simp only [Except.ok.injEq] at h
+      subst h
+      exact hr
+    | dimacs =>
+      simp only at h
+      cases hdi : dimacsInput q nf form r with
+      | error e => simp [hdi] at h
+      | ok r1 =>
+        have hr1 : ∀ ρ, r1.eval ρ = r.eval ρ := by
+          intro ρ
+          unfold dimacsInput at hdi
+          split at hdi
+          · exact hnf.sound _ _ _ (nfCall_ok q nf _ _ _ hdi) ρ
+          · cases hdi; rfl
+        simp only [hdi] at h
+        cases hc : nfCall q nf .cnf r1 with
+        | error e => simp [hc] at h
+        | ok cnf =>
+          have hc' := nfCall_ok q nf _ _ _ hc
+          obtain ⟨cs, rfl, hvars⟩ := hnf.cnfShape r1 cnf hc'
+          have hv : ∀ s ∈ clauseVars cs, s ∈ order := fun s hs => hord r r1 hcv hdi s (hvars s hs)
+          obtain ⟨d, hd, hn, _, hev⟩ := dimacs_sat q cs order hv (htr r1 cs hc')
+          simp only [hc, hd, Except.ok.injEq] at h
+          subst h
+          refine ⟨hn, fun σ => ?_⟩
+          rw [hev σ, hnf.sound _ _ _ hc', hr1, hr]
+
+/-- **C17 for the repaired library** (`Quirks.none`): the full statement. -/
+theorem C17_full : C17_statement := by
+  intro nf hnf fnDefs bs ep i hsel
+  have hs := selects_sound bs ep i hsel
+  constructor
+  · intro form fmt order hnd hord
+    have hnone : ∀ f e, nfCall Quirks.none nf f e = nf f e := by
+      intro f e; simp [nfCall, Quirks.none]
+    generalize hc : combined Quirks.none (fnDefs i).1 (fnDefs i).2 = c at hord
+    have hcomb : ∀ ρ, c.eval ρ = retConj ρ (fnDefs i).1 (fnDefs i).2 := by
+      intro ρ; rw [← hc]; exact bexp_equiv_full _ _ ρ
+    -- existence: every stage succeeds
+    have hex : ∃ p, py2bexpOutput Quirks.none nf form fmt c order = .ok p := by
+      obtain ⟨r, hr⟩ : ∃ r, convertToBoolExpression Quirks.none nf form c = .ok r := by
+        cases form with
+        | sympy => exact ⟨c, rfl⟩
+        | anf => simpa [convertToBoolExpression, hnone] using hnf.total .anf c
+        | cnf => simpa [convertToBoolExpression, hnone] using hnf.total .cnf c
+        | dnf => simpa [convertToBoolExpression, hnone] using hnf.total .dnf c
+        | nnf => simpa [convertToBoolExpression, hnone] using hnf.total .nnf c
+      cases fmt with
+      | sympy => exact ⟨.expr r, by simp [py2bexpOutput, hr]⟩
+      | dimacs =>
+        obtain ⟨r1, hr1⟩ : ∃ r1, dimacsInput Quirks.none nf form r = .ok r1 := by
+          unfold dimacsInput
+          split
+          · rw [hnone]; exact hnf.total .cnf r
+          · exact ⟨r, rfl⟩
+        obtain ⟨cnf, hcnf⟩ := hnf.total .cnf r1
+        obtain ⟨cs, rfl, hvars⟩ := hnf.cnfShape r1 cnf hcnf
+        have hv : ∀ s ∈ clauseVars cs, s ∈ order := fun s hs => hord r r1 hr hr1 s (hvars s hs)
+        obtain ⟨d, hd, _⟩ := dimacs_sat Quirks.none cs order hv (dimacsTriggers_none cs)
+        exact ⟨.dimacs (form != .cnf) d, by simp [py2bexpOutput, hr, hr1, hnone, hcnf, hd]⟩
+    obtain ⟨p, hp⟩ := hex
+    refine ⟨p, by simp [py2bexpMain, hs, hc, hp], ?_⟩
+    have hpart := py2bexp_output_partial Quirks.none nf hnf form fmt c order p hp hord
+      (fun e cs _ => dimacsTriggers_none cs)
+    cases p with
+    | expr e => intro ρ; rw [← hcomb ρ]; exact hpart ρ
+    | dimacs w d =>
+      exact ⟨hpart.1, (dimacs_numbering_bijective order hnd).1,
+        fun σ => by rw [hpart.2 σ]; exact hcomb _⟩
+  · intro compile compiler ver
+    simp [py2qasmStdout, hs, qasmVersion]
+
+/-- py2qasm prints the export of the selected function's circuit under the chosen compiler;
+`-q 3.0` selects OPENQASM 3, anything else OPENQASM 2 -/
+theorem py2qasm_prints_export (compile : String → Nat → QCirc) (bs : List Binding)
+    (ep : Option String) (i : Nat) (hsel : selectEntry ep (parseStr bs) = some i)
+    (compiler ver : String) :
+    py2qasmStdout compile bs ep compiler ver
+      = some (exportQasm (if ver = "3.0" then 3 else 2) (compile compiler i) ++ "\n") := by
+  simp [py2qasmStdout, hsel, qasmVersion]
+
+/-- the version header of the printed text follows the option -/
+theorem qasm_version_header (qc : QCirc) :
+    exportQasm 3 qc = "OPENQASM 3.0;\n\n" ++ gateDef qc ++ applyLine qc
+    ∧ exportQasm 2 qc = "OPENQASM 2.0;\n\n" ++ "include \"qelib1.inc\";\n\n"
+        ++ s!"qreg q[{qc.numQubits}];\n" ++ gateDef qc ++ applyLine qc :=
+  ⟨rfl, rfl⟩
+
+/-- without `-e` the default is the function with the **greatest name** (code-point order),
+whatever the order of definition: `getmembers` sorts, `find_last_qlassf` takes the last -/
+theorem default_is_greatest_name (bs : List Binding) (i : Nat)
+    (h : selectEntry none (parseStr bs) = some i) :
+    ∃ n, (n, i) ∈ parseStr bs ∧ ∀ x ∈ parseStr bs, x.1 ≤ n := by
+  simp only [selectEntry, findLast, Option.map_eq_some_iff] at h
+  obtain ⟨x, hx, rfl⟩ := h
+  refine ⟨x.1, List.mem_of_getLast? hx, ?_⟩
+  have hsorted : (getmembers bs).Pairwise (fun a b => nameLe a b = true) :=
+    List.pairwise_mergeSort
+      (fun a b c h1 h2 => by
+        simp only [nameLe, decide_eq_true_eq] at *
+        exact String.le_trans h1 h2)
+      (fun a b => by
+        simp only [nameLe, Bool.or_eq_true, decide_eq_true_eq]
+        exact String.le_total _ _) _
+  have hp : (parseStr bs).Pairwise (fun a b => a.1 ≤ b.1) := by
+    refine List.Pairwise.filterMap asQlassf ?_ hsorted
+    intro a a' hle b hb b' hb'
+    simp only [asQlassf, Option.map_eq_some_iff] at hb hb'
+    obtain ⟨_, _, rfl⟩ := hb
+    obtain ⟨_, _, rfl⟩ := hb'
+    simpa [nameLe] using hle
+  obtain ⟨ys, hys⟩ := List.getLast?_eq_some_iff.1 hx
+  rw [hys] at hp ⊢
+  intro y hy
+  rcases List.mem_append.1 hy with hy' | hy'
+  · exact (List.pairwise_append.1 hp).2.2 y hy' x (by simp)
+  · simp only [List.mem_singleton] at hy'
+    subst hy'
+    exact String.le_refl _
+
+/-- the hypotheses of `C17_statement` are satisfiable: a two-function script, `-e`, an `nf`
+meeting the spec on the expression at hand is exhibited by `NFSpec` of the identity on CNF input -/
+example : Selects [⟨"zeta", some 0⟩, ⟨"helper", none⟩, ⟨"alpha", some 1⟩] (some "zeta") 0 :=
+  Or.inl ⟨"zeta", rfl, by decide, by decide⟩
+
+example : Selects [⟨"qlassf", none⟩, ⟨"only", some 0⟩] none 0 :=
+  Or.inr ⟨rfl, "only", by decide⟩
+
 end QV.C17
